@@ -80,6 +80,18 @@ pub fn eval(scene: &Scene) -> Result<(u64, u64, u64), Violation> {
     }
     // clip rectangles and layer bounds in force at the draw
     let at = scene.ops.iter().position(|o| matches!(o, Op::Fill(..) | Op::Mask(..))).unwrap_or(0);
+    // a shape that does not cover the surface: like a clip path, only the pixels it covers fully
+    // show the gradient and the pixels it does not cover keep the destination
+    if let Some(Op::Fill(path, _, o)) = scene.ops.get(at) {
+        if !matches!(path.ops.first(), Some(POp::M(x, _)) if *x <= -100.0) {
+            let s = Scene { w, h, dst: Dst::Zero, ops: vec![Op::SetTransform(cx), Op::Fill(path.clone(), SrcSpec::Solid(0xffffffff), Opts { mode: BlendMode::SrcOver, alpha: 1.0, aa: o.aa })] };
+            let sc = render(&s).map_err(|p| Violation::new("model/reference-render-panicked", case.clone(), p))?;
+            clip_cov = Some(match clip_cov.take() {
+                None => sc,
+                Some(cc) => cc.iter().zip(sc.iter()).map(|(a, b)| if a >> 24 == 0 || b >> 24 == 0 { 0 } else if a >> 24 == 255 && b >> 24 == 255 { 0xff000000 } else { 0x80000000 }).collect(),
+            });
+        }
+    }
     let rr = reach_rect(&scene.ops, at, w, h);
     if rr != [0, 0, w, h] {
         let mut cc = clip_cov.take().unwrap_or_else(|| vec![0xff000000u32; (w * h) as usize]);
@@ -371,6 +383,48 @@ impl Check for C12 {
                 }
             }
         });
+        // shapes with gaps in their rows (bars, a ring, a diamond) under the modes that go through
+        // the per-mode row blenders: every covered pixel shows the gradient colour of its own position
+        {
+            let shapes: Vec<PathSpec> = vec![
+                PathSpec::new([PathSpec::rect(1., 0., 4., 24.).ops, PathSpec::rect(9., 2., 5., 20.).ops, PathSpec::rect(19., 0., 4., 24.).ops].concat()),
+                PathSpec { evenodd: true, ops: [PathSpec::rect(2., 2., 20., 20.).ops, PathSpec::rect(8., 7., 9., 10.).ops].concat() },
+                PathSpec::poly(&[(12., 0.5), (23.5, 12.), (12., 23.5), (0.5, 12.)]),
+                PathSpec::new([PathSpec::rect(0., 3., 1., 1.).ops, PathSpec::rect(23., 3., 1., 1.).ops, PathSpec::rect(2., 10., 1., 8.).ops, PathSpec::rect(4., 10., 1., 8.).ops, PathSpec::rect(7., 10., 16., 8.).ops].concat()),
+            ];
+            let gmodes = [BlendMode::Src, BlendMode::SrcOver, BlendMode::Xor, BlendMode::Add, BlendMode::SrcAtop];
+            run.bound("shapes with gaps", format!("{} geometries x {} shapes (bars, even-odd ring, diamond, dots and bars) x {} modes (over white where the mode reduces to the source there) x 2 aa x 2 spreads", ctx_geos.len(), shapes.len(), gmodes.len()));
+            run.par(ctx_geos.len() * shapes.len(), |s, l| {
+                let (kind, p) = &ctx_geos[s / shapes.len()];
+                let shape = &shapes[s % shapes.len()];
+                for mode in gmodes {
+                    for aa in [true, false] {
+                        for spread in [Spr::Pad, Spr::Reflect] {
+                            // opaque stops: over an opaque white destination Src, SrcOver and SrcAtop give the
+                            // source; over a transparent one Src, SrcOver, Xor and Add do
+                            let dst = if matches!(mode, BlendMode::SrcAtop) { Dst::White } else { Dst::Zero };
+                            let src = make(kind, p, stops[0].clone(), spread);
+                            let scene = Scene { w: S, h: S, dst, ops: vec![Op::Fill(shape.clone(), src, Opts { mode, alpha: 1.0, aa })] };
+                            l.states += 1;
+                            l.transitions += 1;
+                            l.traces += 1;
+                            l.evals += 1;
+                            match eval(&scene) {
+                                Ok((hsh, n, sk)) => {
+                                    l.outcome(hsh);
+                                    l.count("pixels_asserted", n);
+                                    l.count("pixels_not_asserted_discontinuity", sk);
+                                    if n >= 100 {
+                                        l.nontrivial += 1;
+                                    }
+                                }
+                                Err(v) => run.report(25_000 + s, v),
+                            }
+                        }
+                    }
+                }
+            });
+        }
         // more stops than any colour table has entries: a smooth ramp in 300 steps
         {
             let many: Vec<Stop> = (0..300).map(|i| { let g = (i * 255 / 299) as u32; Stop { pos: i as f32 / 299.0, color: 0xff000000 | (g << 16) | ((255 - g) << 8) | (g / 2) } }).collect();
